@@ -1,9 +1,12 @@
 #!/venv/bin/python
 """Re-run the quick check of each seeded change's property against a scratch copy carrying the patch
-and update seeded/<id>/meta.json (keeps the history of verdicts).   tools/seed_recheck.py [id ...]"""
+and update seeded/<id>/meta.json (keeps the history of verdicts).   tools/seed_recheck.py [id ...]
+With --also=CNN the check of ANOTHER property is run against the change and recorded under "other_checks"
+(a change written against one property can be the business of another one, e.g. a thread race)."""
 import json, os, subprocess, sys, time
 VERIF = os.path.dirname(os.path.dirname(os.path.abspath(__file__)))
-ids = sys.argv[1:] or sorted(os.listdir(os.path.join(VERIF, "seeded")))
+also = [a.split("=", 1)[1] for a in sys.argv[1:] if a.startswith("--also=")]
+ids = [a for a in sys.argv[1:] if not a.startswith("--")] or sorted(os.listdir(os.path.join(VERIF, "seeded")))
 for sid in ids:
     d = os.path.join(VERIF, "seeded", sid)
     mp = os.path.join(d, "meta.json")
@@ -11,6 +14,15 @@ for sid in ids:
         continue
     meta = json.load(open(mp))
     if not meta.get("confirmed"):
+        continue
+    if also:
+        for prop in also:
+            r = subprocess.run([os.path.join(VERIF, "tools", "mutate.py"), os.path.join(d, "patch.diff"), prop], capture_output=True, text=True)
+            out = r.stdout
+            meta.setdefault("other_checks", {})[prop] = {"verdict": out.split()[0] if out.strip() else "?", "when": time.strftime("%Y-%m-%d %H:%M"),
+                                                         "lines": [l.strip()[:260] for l in out.splitlines()[1:7]]}
+            print(sid, prop, meta["other_checks"][prop]["verdict"])
+        json.dump(meta, open(mp, "w"), indent=1)
         continue
     r = subprocess.run([os.path.join(VERIF, "tools", "mutate.py"), os.path.join(d, "patch.diff"), meta["property"]],
                        capture_output=True, text=True)
